@@ -52,6 +52,14 @@ func genC04(seed uint64, idx int, tier string) *Scenario {
 	if p.OneShot {
 		n = 1
 	}
+	overLimit := false
+	udpMaxReqV = 4
+	if p.UDP && r.Chance(0.1) {
+		// beyond the rate limiter's burst (known finding for tftp / memcached-udp: reports stop there)
+		udpMaxReqV = 1 << 30
+		n = r.Range(5, 9)
+		overLimit = true
+	}
 	cmds := p.Gen(r, "t"+r.word(3, 3), n)
 	a := Actor{Kind: "tcp", Src: clientAddr(0), Dst: fmt.Sprintf("%s:%d", sensorIP, p.Port), Svc: pn}
 	if p.UDP {
@@ -74,6 +82,9 @@ func genC04(seed uint64, idx int, tier string) *Scenario {
 	}
 	if p.UDP {
 		class = "datagrams"
+		if overLimit {
+			class = "datagrams-over-limit"
+		}
 	}
 	for i, c := range cmds {
 		op := SendOp(c.Data, nil, c.Note)
@@ -120,7 +131,7 @@ func genC04(seed uint64, idx int, tier string) *Scenario {
 	if p.UDP {
 		// datagrams: one per step, or several released in the same step (batch bit)
 		sc.Schedule = r.Schedule(len(a.Ops) + 2)
-		if r.Chance(0.5) {
+		if r.Chance(0.5) && pn != "tftp" { // tftp uploads are lock-step by protocol: DATA follows the ACK of its WRQ
 			for i := range sc.Schedule {
 				if r.Chance(0.5) {
 					sc.Schedule[i] |= 1 << 16
@@ -188,6 +199,10 @@ func connEvents(obs *Obs, src string, skip map[string]bool) (lines []string, map
 func checkWants(a *Actor, maps []map[string]interface{}) (kind, field, detail string) {
 	pos := -1
 	for oi, o := range a.Ops {
+		if a.Kind == "udp" {
+			// every datagram has its own handler goroutine: order is only meaningful within one datagram
+			pos = -1
+		}
 		for _, w := range opWants(o) {
 			var hits []int
 			for i, m := range maps {
@@ -259,6 +274,11 @@ func runC04(t *testing.T, sc *Scenario) Result {
 			res.Violate(k+"/segmented", pn+":"+f, d)
 			return res
 		}
+		if a.Kind == "udp" {
+			// handlers of different datagrams are different goroutines: compare as multisets
+			sortTogether(linesV, mapsV)
+			sortTogether(linesB, mapsB)
+		}
 		if len(linesV) != len(linesB) {
 			res.Violate("event-count-differs-by-segmentation", pn, fmt.Sprintf("baseline %d events, segmented %d events\nbaseline:\n%s\nsegmented:\n%s", len(linesB), len(linesV), short(joinLines(linesB), 600), short(joinLines(linesV), 600)))
 			return res
@@ -299,4 +319,19 @@ func firstDiffField(a, b map[string]interface{}, skip map[string]bool) string {
 		}
 	}
 	return strings.Join(ks, ",")
+}
+
+func sortTogether(lines []string, maps []map[string]interface{}) {
+	idx := make([]int, len(lines))
+	for i := range idx {
+		idx[i] = i
+	}
+	sort.SliceStable(idx, func(a, b int) bool { return lines[idx[a]] < lines[idx[b]] })
+	l2 := make([]string, len(lines))
+	m2 := make([]map[string]interface{}, len(maps))
+	for i, j := range idx {
+		l2[i], m2[i] = lines[j], maps[j]
+	}
+	copy(lines, l2)
+	copy(maps, m2)
 }
